@@ -496,8 +496,18 @@ func (bkt *Bucket) get(ki *KeyInfo, memOnly bool) (payload *Payload, pos Positio
 	for atomic.LoadInt32(&bkt.loadingHints) != 0 {
 		time.Sleep(10 * time.Millisecond)
 	}
+	// A set of either key that slips in between the lookups and the registration below
+	// would leave a stale position in the collision table for good (hintMgr.set keeps
+	// the table up to date only for hashes that are registered already): register under
+	// the bucket's write lock, and only if the tree slot is still the one that was read.
+	bkt.writeLock.Lock()
+	if _, curPos, ok := bkt.htree.get(ki); !ok || curPos != pos {
+		bkt.writeLock.Unlock()
+		return bkt.get(ki, memOnly)
+	}
 	hintit, chunkID, err := bkt.hints.getItem(ki.KeyHash, ki.StringKey, false)
 	if err != nil || hintit == nil {
+		bkt.writeLock.Unlock()
 		return
 	}
 
@@ -511,6 +521,7 @@ func (bkt *Bucket) get(ki *KeyInfo, memOnly bool) (payload *Payload, pos Positio
 	pos = Position{chunkID, hintit.Pos.Offset}
 	hintit.Pos = pos
 	bkt.hints.collisions.compareAndSet(hintit, "get2") // the one not in htree
+	bkt.writeLock.Unlock()
 
 	rec2, _, err := bkt.datas.GetRecordByPos(pos)
 	if err != nil {
